@@ -1,103 +1,150 @@
-(* Proofs/SigV4HdrProofs.v — header value canonicalisation: server (TrimSpace of the joined values) versus
-   the documented Trimall of every value (C29). *)
+(* Proofs/SigV4HdrProofs.v — header value canonicalisation (after /repo bc241f9): canonicalHeaderValue
+   (TrimSpace, then ReplaceAll("  ", " ") until no run is left) is the documented Trimall
+   (collapse runs of spaces, then trim) for every byte string (C29; used by C28). *)
 From Verif Require Import Bytes Codec SigV4 SigV4Spec SigV4EncProofs.
 
-Definition starts_ok (x : bytes) : bool := match x with [] => true | c :: _ => negb (is_space c) end.
+Notation sp := (" "%byte).
+Definition hd_is_sp (l : bytes) : bool := match l with c :: _ => beqb c sp | [] => false end.
 
-Lemma trim_left_len y : length (trim_left y) <= length y.
-Proof. induction y as [|c y IH]; cbn; [lia|]. destruct (is_space c); cbn; lia. Qed.
+Lemma collapse_cons a t :
+  collapse_spaces (a :: t) = if beqb a sp && hd_is_sp t then collapse_spaces t else a :: collapse_spaces t.
+Proof. destruct t as [|b t]; cbn; [rewrite andb_false_r; reflexivity | reflexivity]. Qed.
 
-Lemma trim_left_len_eq y : length (trim_left y) = length y -> trim_left y = y /\ starts_ok y = true.
+(* ---- the ReplaceAll loop computes collapse_spaces ---- *)
+Lemma replace_cons2 a b t :
+  replace_double_space (a :: b :: t) =
+  if beqb a sp && beqb b sp then sp :: replace_double_space t else a :: replace_double_space (b :: t).
+Proof. reflexivity. Qed.
+Lemma has_cons2 a b t :
+  has_double_space (a :: b :: t) = (beqb a sp && beqb b sp) || has_double_space (b :: t).
+Proof. reflexivity. Qed.
+Lemma replace_hd x : hd_is_sp (replace_double_space x) = hd_is_sp x.
 Proof.
-  destruct y as [|c y]; cbn; [auto|]. destruct (is_space c) eqn:E; cbn; [|auto].
-  intros H. pose proof (trim_left_len y). lia.
+  destruct x as [|a [|b t]]; cbn; try reflexivity.
+  destruct (beqb a sp && beqb b sp) eqn:E; cbn; [|reflexivity].
+  apply andb_true_iff in E. destruct E as [E _]. rewrite E. reflexivity.
 Qed.
 
-Lemma trim_left_id y : starts_ok y = true -> trim_left y = y.
-Proof. destruct y as [|c y]; cbn; [auto|]. destruct (is_space c); [discriminate | auto]. Qed.
-
-Lemma trimmed_iff x : trim_space x = x <-> starts_ok x = true /\ starts_ok (rev x) = true.
+Lemma collapse_replace_n n : forall s, length s <= n -> collapse_spaces (replace_double_space s) = collapse_spaces s.
 Proof.
-  unfold trim_space, trim_right. split.
-  - intros H.
-    assert (L : length (trim_left (rev (trim_left x))) = length x).
-    { rewrite <- (rev_length (trim_left (rev (trim_left x)))), H. reflexivity. }
-    pose proof (trim_left_len (rev (trim_left x))) as L1. rewrite rev_length in L1.
-    pose proof (trim_left_len x) as L2.
-    assert (L3 : length (trim_left x) = length x) by lia.
-    destruct (trim_left_len_eq x L3) as [E1 S1]. split; [exact S1|].
-    rewrite E1 in L.
-    assert (L4 : length (trim_left (rev x)) = length (rev x)) by (rewrite rev_length; exact L).
-    destruct (trim_left_len_eq (rev x) L4) as [_ S2]. exact S2.
-  - intros [S1 S2]. rewrite (trim_left_id x S1), (trim_left_id (rev x) S2). apply rev_involutive.
+  induction n as [|n IH]; intros s Hl.
+  - destruct s; [reflexivity | cbn in Hl; lia].
+  - destruct s as [|a [|b t]]; try reflexivity.
+    rewrite replace_cons2. destruct (beqb a sp && beqb b sp) eqn:E.
+    + apply andb_true_iff in E. destruct E as [Ea Eb]. apply beqb_eq in Ea, Eb. subst a b.
+      rewrite (collapse_cons sp (sp :: t)). cbn [hd_is_sp]. rewrite !beqb_refl. cbn [andb].
+      rewrite (collapse_cons sp (replace_double_space t)), (collapse_cons sp t), replace_hd.
+      rewrite (IH t) by (cbn in Hl; lia). reflexivity.
+    + rewrite (collapse_cons a (replace_double_space (b :: t))), replace_hd, (collapse_cons a (b :: t)).
+      rewrite (IH (b :: t)) by (cbn in Hl |- *; lia). reflexivity.
 Qed.
 
-Lemma starts_ok_app a b : starts_ok (a ++ b) = match a with [] => starts_ok b | _ => starts_ok a end.
-Proof. destruct a; reflexivity. Qed.
-
-Lemma join_starts_ok vs : Forall (fun v => starts_ok v = true) vs -> starts_ok (join B"," vs) = true.
+Lemma replace_shorter s : has_double_space s = true -> length (replace_double_space s) < length s.
 Proof.
-  induction 1 as [|v vs Hv Hvs IH]; [reflexivity|].
-  destruct vs as [|v2 vs]; [exact Hv|].
-  change (join B"," (v :: v2 :: vs)) with (v ++ B"," ++ join B"," (v2 :: vs)).
-  rewrite starts_ok_app. destruct v; [reflexivity | exact Hv].
+  assert (G : forall n s, length s <= n -> length (replace_double_space s) <= length s /\
+                          (has_double_space s = true -> length (replace_double_space s) < length s)).
+  { induction n as [|n IH]; intros x Hl.
+    - destruct x; [cbn; split; [lia | discriminate] | cbn in Hl; lia].
+    - destruct x as [|a [|b t]]; [cbn; split; [lia | discriminate] | cbn; split; [lia | discriminate] |].
+      rewrite replace_cons2, has_cons2. destruct (beqb a sp && beqb b sp) eqn:E.
+      + destruct (IH t) as [L _]; [cbn in Hl; lia|]. cbn [length]. split; [lia | intros _; lia].
+      + destruct (IH (b :: t)) as [L S]; [cbn in Hl |- *; lia|]. cbn [length orb] in *. split; [lia|].
+        intros H. specialize (S H). lia. }
+  intros H. exact (proj2 (G (length s) s (le_n _)) H).
 Qed.
 
-Lemma join_ends_ok vs : Forall (fun v => starts_ok (rev v) = true) vs -> starts_ok (rev (join B"," vs)) = true.
+Lemma no_double_collapse s : has_double_space s = false -> collapse_spaces s = s.
 Proof.
-  induction 1 as [|v vs Hv Hvs IH]; [reflexivity|].
-  destruct vs as [|v2 vs]; [exact Hv|].
-  change (join B"," (v :: v2 :: vs)) with (v ++ B"," ++ join B"," (v2 :: vs)).
-  rewrite rev_app_distr, rev_app_distr, starts_ok_app.
-  destruct (rev (join B"," (v2 :: vs)) ++ rev B",") eqn:E.
-  - apply app_eq_nil in E. destruct E as [_ E]. discriminate.
-  - rewrite <- E. rewrite starts_ok_app. destruct (rev (join B"," (v2 :: vs))); [reflexivity | exact IH].
+  induction s as [|a t IH]; [reflexivity|]. destruct t as [|b t']; [reflexivity|].
+  cbn [has_double_space]. intros H. apply orb_false_iff in H. destruct H as [H1 H2].
+  cbn [collapse_spaces]. rewrite H1. f_equal. apply IH. exact H2.
 Qed.
 
-Lemma join_trimmed vs : Forall (fun v => trim_space v = v) vs -> trim_space (join B"," vs) = join B"," vs.
+Lemma collapse_loop_spec fuel : forall s, length s <= fuel -> collapse_loop fuel s = collapse_spaces s.
 Proof.
-  intros H. apply trimmed_iff. split.
-  - apply join_starts_ok. eapply Forall_impl; [|exact H]. intros v Hv. apply trimmed_iff in Hv. tauto.
-  - apply join_ends_ok. eapply Forall_impl; [|exact H]. intros v Hv. apply trimmed_iff in Hv. tauto.
+  induction fuel as [|f IH]; intros s Hl.
+  - destruct s; [reflexivity | cbn in Hl; lia].
+  - cbn [collapse_loop]. destruct (has_double_space s) eqn:E.
+    + pose proof (replace_shorter s E). rewrite IH by lia. apply (collapse_replace_n (length s)). lia.
+    + symmetry. apply no_double_collapse. exact E.
 Qed.
 
-(* a value is clean when Trimall leaves it alone: no run of two spaces, no white space at either end *)
-Definition clean (v : bytes) : Prop := collapse_spaces v = v /\ trim_space v = v.
-
-Lemma clean_trimall v : clean v -> spec_trimall v = v.
-Proof. intros [C T]. unfold spec_trimall. rewrite C. exact T. Qed.
-
-Lemma map_clean vs : Forall clean vs -> map spec_trimall vs = vs.
-Proof. induction 1 as [|v vs Hv _ IH]; cbn; [reflexivity|]. rewrite (clean_trimall v Hv), IH. reflexivity. Qed.
-
-Definition headers_clean (h : header_map) (signed : list bytes) : Prop :=
-  forall k vs, In (k, vs) h -> mem_bytes (to_lower k) signed = true -> Forall clean vs.
-
-Lemma signed_pairs_eq_spec h signed :
-  headers_clean h signed -> signed_pairs h signed = spec_signed_pairs h signed.
+(* ---- collapsing commutes with trimming ---- *)
+Lemma trim_left_collapse v : trim_left (collapse_spaces v) = collapse_spaces (trim_left v).
 Proof.
-  induction h as [|[k vs] h IH]; intros Hc; [reflexivity|].
-  cbn [signed_pairs spec_signed_pairs].
-  assert (Hc' : headers_clean h signed). { intros k' vs' Hin. apply Hc. right. exact Hin. }
-  destruct (mem_bytes (to_lower k) signed) eqn:E; [|apply IH; exact Hc'].
-  pose proof (Hc k vs (or_introl eq_refl) E) as Hv.
-  rewrite (map_clean vs Hv), IH by exact Hc'.
-  rewrite join_trimmed; [reflexivity|]. eapply Forall_impl; [|exact Hv]. intros v [_ T]. exact T.
+  induction v as [|a t IH]; [reflexivity|].
+  rewrite collapse_cons. cbn [trim_left]. destruct (is_space a) eqn:Es.
+  - destruct (beqb a sp && hd_is_sp t); [exact IH | cbn [trim_left]; rewrite Es; exact IH].
+  - assert (beqb a sp = false) as Ea.
+    { destruct (beqb a sp) eqn:E; [|reflexivity]. apply beqb_eq in E. subst a. discriminate Es. }
+    rewrite Ea. cbn [andb trim_left]. rewrite Es. rewrite collapse_cons, Ea. reflexivity.
 Qed.
 
-Lemma collect_eq_spec host h signed :
-  clean host -> headers_clean h signed ->
+Definition last_is_sp (y : bytes) : bool := hd_is_sp (rev y).
+Lemma hd_is_sp_app x y : hd_is_sp (x ++ y) = match x with [] => hd_is_sp y | _ => hd_is_sp x end.
+Proof. destruct x; reflexivity. Qed.
+Lemma last_is_sp_cons b t : last_is_sp (b :: t) = match t with [] => beqb b sp | _ => last_is_sp t end.
+Proof.
+  unfold last_is_sp. cbn [rev]. rewrite hd_is_sp_app. destruct t as [|c t]; [reflexivity|].
+  destruct (rev (c :: t)) eqn:E; [|reflexivity].
+  apply (f_equal (@length byte)) in E. rewrite rev_length in E. discriminate.
+Qed.
+
+Lemma collapse_snoc y : forall a,
+  collapse_spaces (y ++ [a]) = if last_is_sp y && beqb a sp then collapse_spaces y else collapse_spaces y ++ [a].
+Proof.
+  induction y as [|b t IH]; intros a; [reflexivity|].
+  cbn [app]. rewrite collapse_cons, last_is_sp_cons, hd_is_sp_app. destruct t as [|c t'].
+  - cbn [app hd_is_sp collapse_spaces]. destruct (beqb b sp) eqn:Eb; destruct (beqb a sp) eqn:Ea; cbn; try reflexivity.
+    apply beqb_eq in Ea, Eb. subst. reflexivity.
+  - rewrite IH, (collapse_cons b (c :: t')).
+    destruct (beqb b sp && hd_is_sp (c :: t')); destruct (last_is_sp (c :: t') && beqb a sp); reflexivity.
+Qed.
+
+Lemma collapse_rev y : collapse_spaces (rev y) = rev (collapse_spaces y).
+Proof.
+  induction y as [|b t IH]; [reflexivity|].
+  cbn [rev]. rewrite collapse_snoc, collapse_cons, IH. unfold last_is_sp. rewrite rev_involutive.
+  rewrite andb_comm. destruct (beqb b sp && hd_is_sp t); [reflexivity|]. reflexivity.
+Qed.
+
+Lemma trim_space_collapse v : collapse_spaces (trim_space v) = trim_space (collapse_spaces v).
+Proof.
+  unfold trim_space, trim_right.
+  rewrite collapse_rev, <- trim_left_collapse, collapse_rev, <- trim_left_collapse. reflexivity.
+Qed.
+
+Theorem canonical_header_value_eq_spec v : canonical_header_value v = spec_trimall v.
+Proof.
+  unfold canonical_header_value, spec_trimall. cbv zeta.
+  rewrite collapse_loop_spec by lia. apply trim_space_collapse.
+Qed.
+
+Lemma signed_pairs_eq_spec h signed : signed_pairs h signed = spec_signed_pairs h signed.
+Proof.
+  induction h as [|[k vs] h IH]; [reflexivity|].
+  cbn [signed_pairs spec_signed_pairs]. rewrite IH.
+  rewrite (map_ext _ _ canonical_header_value_eq_spec). reflexivity.
+Qed.
+
+Theorem collect_eq_spec host h signed :
   collect_signed_headers host h signed = spec_header_pairs host h signed.
 Proof.
-  intros Hh Hc. unfold collect_signed_headers, spec_header_pairs.
-  rewrite (clean_trimall host Hh), signed_pairs_eq_spec by exact Hc. destruct Hh as [_ T]. rewrite T. reflexivity.
+  unfold collect_signed_headers, spec_header_pairs.
+  rewrite signed_pairs_eq_spec, canonical_header_value_eq_spec. reflexivity.
 Qed.
 
-(* the refutation witness: one signed header whose value has two consecutive inner spaces *)
-Definition ws_headers : header_map := [(B"X-Amz-Meta-A", [B"a  b"])].
-Definition ws_signed : list bytes := [B"host"; B"x-amz-meta-a"].
-Lemma headers_differ :
-  collect_signed_headers B"s3.localhost" ws_headers ws_signed <> spec_header_pairs B"s3.localhost" ws_headers ws_signed.
+(* Trimall is idempotent and its result is "clean": no outer white space, no run of two spaces *)
+Lemma in_collapse c x : In c (collapse_spaces x) -> In c x.
+Proof.
+  induction x as [|a t IH]; [tauto|]. rewrite collapse_cons.
+  destruct (beqb a sp && hd_is_sp t); cbn [In]; intros H; [right; auto | destruct H; [left; assumption | right; auto]].
+Qed.
+
+(* historical (before bc241f9): the server used TrimSpace of the comma-joined values; that differed from
+   Trimall on a value with two consecutive inner spaces *)
+Definition old_header_value (vs : list bytes) : bytes := trim_space (join B"," vs).
+Lemma old_header_value_differs : old_header_value [B"a  b"] <> join B"," (map spec_trimall [B"a  b"]).
 Proof. vm_compute. discriminate. Qed.
 
 (* ---- query ---- *)
